@@ -49,6 +49,9 @@ MC_PromOptsFew == { [skip |-> TRUE, samples |-> FALSE, pmatch |-> TRUE],       \
                     [skip |-> FALSE, samples |-> FALSE, pmatch |-> TRUE],      \* streamed read, label calls with matchers
                     [skip |-> FALSE, samples |-> TRUE, pmatch |-> FALSE] }     \* sampled read, label calls through /series
 
+MC_PromOptsTwo == { [skip |-> TRUE, samples |-> FALSE, pmatch |-> TRUE],       \* SkipChunks through /series
+                    [skip |-> FALSE, samples |-> TRUE, pmatch |-> FALSE] }     \* sampled read, label calls through /series
+
 (* ---------------- universe ---------------- *)
 LabelMaps(ns, vs) == UNION { [d -> vs] : d \in SUBSET ns }
 StoredLsets == LabelMaps(SNames, SVals) \ {<<>>}
